@@ -89,7 +89,7 @@ func ints(v any) []int {
 
 func TestReplay(t *testing.T) {
 	rep := &Report{Engine: "logh.TestReplay"}
-	StartWatchdog(rep, 45*time.Second, dumpAll)
+	StartWatchdog(rep, time.Duration(envInt("VERIF_WATCHDOG_S", 20))*time.Second, dumpAll)
 	path := os.Getenv("VERIF_BEHAVIOURS")
 	f, err := os.Open(path)
 	if err != nil {
@@ -343,7 +343,7 @@ func (n *ndw) close() {
 
 func TestTraces(t *testing.T) {
 	rep := &Report{Engine: "logh.TestTraces"}
-	StartWatchdog(rep, 45*time.Second, dumpAll)
+	StartWatchdog(rep, time.Duration(envInt("VERIF_WATCHDOG_S", 20))*time.Second, dumpAll)
 	seed := int64(envInt("VERIF_SEED", 1))
 	ncases := envInt("VERIF_CASES", 300)
 	rsShare := envInt("VERIF_RS_SHARE", 15)
@@ -358,6 +358,15 @@ func TestTraces(t *testing.T) {
 	var cases []*tcase
 	for i := 1; i <= ncases; i++ {
 		cases = append(cases, genCase(i, seed*1000003+int64(i), rsShare))
+	}
+	if only := os.Getenv("VERIF_ONLY_CASE"); only != "" { // "<case>:<seed>", re-execution of one recorded case
+		var n int
+		var sd int64
+		fmt.Sscanf(only, "%d:%d", &n, &sd)
+		cases = nil
+		for i := 0; i < envInt("VERIF_REPEAT", 200); i++ { // the schedule of the logger goroutine is not controlled: repeat
+			cases = append(cases, genCase(n, sd, rsShare))
+		}
 	}
 	distinct := map[string]bool{}
 	var nfilters, novertake, nlogs, nquietFilters, rsCases, rsRefDiff, hangs int
@@ -547,7 +556,7 @@ func judgeConc(res []*go9p.Log, cs, o, t, cap int, issued []int, recs [][]*Rec) 
 
 func TestConcurrent(t *testing.T) {
 	rep := &Report{Engine: "logh.TestConcurrent"}
-	StartWatchdog(rep, 45*time.Second, dumpAll)
+	StartWatchdog(rep, time.Duration(envInt("VERIF_WATCHDOG_S", 20))*time.Second, dumpAll)
 	seed := int64(envInt("VERIF_SEED", 1))
 	ncases := envInt("VERIF_CASES", 200)
 	var nfilters, nlogs, hangs, partial, mixed, mixedFinal int
